@@ -310,7 +310,7 @@ def compute_attractor_candidates(
                     candidate_states = candidate_states_one
                     continue
 
-                if len(candidate_states_zero) < len(candidate_states_one):
+                if len(candidate_states_zero) <= len(candidate_states_one):
                     if sd.config["debug"]:
                         print(
                             f"[{node_id}] Chosen {var}=0 with better candidate count ({len(candidate_states_zero)}). {len(retained_set)}/{len(node_nfvs)} variables chosen."
